@@ -75,67 +75,78 @@ theorem displayInner_nil (fuel : Nat) (it : List TokItem) (out : List Piece) :
     displayInner (fuel + 1) [] it out = some (out, it, false) := by
   unfold displayInner; rfl
 
-theorem indef_aux (fuel : Nat) (out : List Piece) (msg close : String) (more st : List E)
-    (it : List TokItem) :
-    dnext fuel out (indefStep msg close more st it) =
+/-- **`displayInner` is the iteration of `dstep`.** -/
+theorem displayInner_succ (fuel : Nat) (e : E) (st : List E) (it : List TokItem) (out : List Piece) :
+    displayInner (fuel + 1) (e :: st) it out = dnext fuel out (dstep e st it) := by
+  have indef : ∀ (msg close : String) (more : List E) (it : List TokItem),
+      dnext fuel out (indefStep msg close more st it) =
       (match it with
        | [] => some (out ++ [.lit msg], [], true)
        | .tok .brk :: it' => displayInner fuel st it' (out ++ [.lit close])
        | _ => displayInner fuel (more ++ st) it out) := by
-  unfold indefStep
-  split <;> simp [dnext]
-
-/-- **`displayInner` is the iteration of `dstep`.** -/
-theorem displayInner_succ (fuel : Nat) (e : E) (st : List E) (it : List TokItem) (out : List Piece) :
-    displayInner (fuel + 1) (e :: st) it out = dnext fuel out (dstep e st it) := by
+    intro msg close more it
+    unfold indefStep
+    split <;> simp [dnext]
   cases e with
   | N =>
     cases it with
-    | nil => unfold displayInner; rfl
+    | nil => conv => lhs; unfold displayInner
+             rfl
     | cons x it' =>
       cases x with
-      | err e => unfold displayInner; rfl
+      | err e => conv => lhs; unfold displayInner
+                 rfl
       | tok t =>
-        cases t <;> (unfold displayInner; simp only [dstep, nstep, dnext]) <;>
+        cases t <;> (conv => lhs; unfold displayInner) <;> simp only [dstep, nstep, dnext] <;>
           (try split) <;> simp [dnext]
-  | S s => unfold displayInner; rfl
+  | S s => conv => lhs; unfold displayInner
+           rfl
   | X s =>
     cases it with
-    | nil => unfold displayInner; simp [dstep, dnext]
+    | nil => conv => lhs; unfold displayInner
+             simp [dstep, dnext]
     | cons x it' =>
       cases x with
-      | err e => unfold displayInner; rfl
-      | tok t => cases t <;> (unfold displayInner; simp [dstep, dnext])
-  | T => unfold displayInner; simp [dstep, dnext]
+      | err e => conv => lhs; unfold displayInner
+                 rfl
+      | tok t => cases t <;> (conv => lhs; unfold displayInner) <;> simp [dstep, dnext]
+  | T => conv => lhs; unfold displayInner
+         simp [dstep, dnext]
   | A n =>
     cases n with
     | none =>
-      simp only [dstep, indef_aux]
-      unfold displayInner
-      split <;> simp_all
+      simp only [dstep, indef]
+      conv => lhs; unfold displayInner
+      rfl
     | some n =>
       match n with
-      | 0 => unfold displayInner; rfl
-      | 1 => unfold displayInner; simp [dstep, dnext]
-      | n + 2 => unfold displayInner; simp [dstep, dnext]
+      | 0 => conv => lhs; unfold displayInner
+             rfl
+      | 1 => conv => lhs; unfold displayInner
+             simp [dstep, dnext]
+      | n + 2 => conv => lhs; unfold displayInner
+                 simp [dstep, dnext]
   | M n =>
     cases n with
     | none =>
-      simp only [dstep, indef_aux]
-      unfold displayInner
-      split <;> simp_all
+      simp only [dstep, indef]
+      conv => lhs; unfold displayInner
+      rfl
     | some n =>
       match n with
-      | 0 => unfold displayInner; rfl
-      | 1 => unfold displayInner; simp [dstep, dnext]
-      | n + 2 => unfold displayInner; simp [dstep, dnext]
+      | 0 => conv => lhs; unfold displayInner
+             rfl
+      | 1 => conv => lhs; unfold displayInner
+             simp [dstep, dnext]
+      | n + 2 => conv => lhs; unfold displayInner
+                 simp [dstep, dnext]
   | B =>
-    simp only [dstep, indef_aux]
-    unfold displayInner
-    split <;> simp_all
+    simp only [dstep, indef]
+    conv => lhs; unfold displayInner
+    rfl
   | D =>
-    simp only [dstep, indef_aux]
-    unfold displayInner
-    split <;> simp_all
+    simp only [dstep, indef]
+    conv => lhs; unfold displayInner
+    rfl
 
 end Minicbor
